@@ -64,6 +64,20 @@ func CaptureHint(_ *big.Int, in, out []*big.Int) error {
 func init() { solver.RegisterHint(CaptureHint) }
 
 func (c *ProgCircuit) Define(api frontend.API) error {
+	temps, err := c.run(api)
+	if err != nil {
+		return err
+	}
+	if !c.NoCapture && len(temps) > 0 {
+		if _, err := api.Compiler().NewHint(CaptureHint, 1, temps...); err != nil {
+			return err
+		}
+	}
+	return nil
+}
+
+// run interprets the program and returns every intermediate result.
+func (c *ProgCircuit) run(api frontend.API) ([]frontend.Variable, error) {
 	var temps []frontend.Variable
 	get := func(r Ref) frontend.Variable {
 		switch r.K {
@@ -141,15 +155,10 @@ func (c *ProgCircuit) Define(api frontend.API) error {
 		case "AssertIsLessOrEqual":
 			api.AssertIsLessOrEqual(a[0], a[1])
 		default:
-			return fmt.Errorf("unknown op %q", ins.Op)
+			return nil, fmt.Errorf("unknown op %q", ins.Op)
 		}
 	}
-	if !c.NoCapture && len(temps) > 0 {
-		if _, err := api.Compiler().NewHint(CaptureHint, 1, temps...); err != nil {
-			return err
-		}
-	}
-	return nil
+	return temps, nil
 }
 
 // ---- Go port of specs/ApiSemantics.tla (cross-checked against TLC on the probe assignments) ----
